@@ -166,6 +166,49 @@ def specEq [BEq ν] (a b : Spec κ ν) : Except Err Bool :=
 
 end
 
+/-! ### Containers that store their elements under an encoded key (`BinaryCIFBlock`)
+
+`BinaryCIFBlock` keeps category `name` under the key `"_" + name` (get/set/del/contains add the
+prefix) and iteration removes exactly that one prefix again (after the `fix:` commit that replaced
+`lstrip("_")` by `removeprefix("_")`). -/
+
+section
+variable {κ κ' ρ ν : Type}
+
+def encOp (enc : κ → κ') : Op κ ρ ν → Op κ' ρ ν
+  | .get k => .get (enc k) | .set k v => .set (enc k) v | .setRaw k r => .setRaw (enc k) r
+  | .del k => .del (enc k) | .has k => .has (enc k) | .iter => .iter | .len => .len
+
+def decOut (dec : κ' → κ) : Out κ' ν → Out κ ν
+  | .keys ks => .keys (ks.map dec)
+  | .unit => .unit | .val v => .val v | .nat n => .nat n | .bool b => .bool b | .err e => .err e
+
+/-- one operation of the user (keys of type `κ`) on a store with encoded keys -/
+def stepP [BEq κ'] (enc : κ → κ') (dec : κ' → κ) (kind : Kind) (parse : ρ → Option ν)
+    (st : Store κ' ρ ν) (op : Op κ ρ ν) : Store κ' ρ ν × Out κ ν :=
+  let r := step kind parse st (encOp enc op)
+  (r.1, decOut dec r.2)
+
+def runP [BEq κ'] (enc : κ → κ') (dec : κ' → κ) (kind : Kind) (parse : ρ → Option ν) :
+    Store κ' ρ ν → List (Op κ ρ ν) → Store κ' ρ ν × List (Out κ ν)
+  | st, [] => (st, [])
+  | st, op :: ops =>
+    let r := stepP enc dec kind parse st op
+    let r' := runP enc dec kind parse r.1 ops
+    (r'.1, r.2 :: r'.2)
+
+def mapKeys {α : Type} (dec : κ' → κ) (l : List (κ' × α)) : List (κ × α) := l.map (fun kv => (dec kv.1, kv.2))
+
+/-- what a store with encoded keys means to the user -/
+def absP (dec : κ' → κ) (parse : ρ → Option ν) (st : Store κ' ρ ν) : Spec κ ν := mapKeys dec (absStore parse st)
+
+end
+
+/-- `"_" + name` -/
+def encU (k : Str) : Str := '_' :: k
+/-- `key.removeprefix("_")` -/
+def decU (k : Str) : Str := match k with | '_' :: r => r | r => r
+
 /-! ### The cached row count of a category (`_row_count`)
 
 `CIFCategory` / `BinaryCIFCategory` cache the row count in `row_count` and in `serialize()`.
